@@ -59,6 +59,7 @@ def shards(tier, seed):
         out.append({"kind": "dec_alpha", "maxlen": 5})
         out.append({"kind": "dec_random", "n": 200000})
         out.append({"kind": "contracts", "n": 40000})
+        out.append({"kind": "polluted", "hi": B2 + 500})
     else:
         step = B3 // 64 + 1
         for lo in range(0, B3 + 1, step):
@@ -74,6 +75,7 @@ def shards(tier, seed):
         for p in range(8):
             out.append({"kind": "dec_random", "n": 500000, "part": p})
         out.append({"kind": "contracts", "n": 400000})
+        out.append({"kind": "polluted", "hi": B3 // 8})
         if full:
             step = (B4 - B3) // 1024 + 1
             for lo in range(B3, B4, step):
@@ -265,6 +267,30 @@ def run(shard, rec, tier, seed):
         rec.sample({"decode_random": [x.hex() for x in sorted(seen)[:3]]})
     elif kind == "contracts":
         run_contracts(ns, rec, shard, seed)
+    elif kind == "polluted":
+        # hostile history: out-of-domain calls first (a codec with hidden shared state - caches, tables -
+        # must not let them change what in-range numbers encode to afterwards), then the in-range sweep
+        junk = [-1, -2, -252, -253, -254, -64009, -(B4), B4, B4 + 1, B4 * B, 2 ** 32, 2 ** 63, 2 ** 64 + 5, True, False]
+        for j in junk:
+            for f in (ns.numbers.encode_number,):
+                try:
+                    f(j)
+                except Exception:
+                    pass
+        for b in (b"", b"\x00", b"\xff\xff\xff\xff", b"\xfe", bytes(9), bytearray(b"\x01\xfe\x07"), [1, 2, 3], (254, 7)):
+            try:
+                ns.numbers.decode_number(b)
+            except Exception:
+                pass
+        rec.count("out-of-domain-calls-before-sweep", len(junk) + 8)
+        for n in list(range(0, shard["hi"])) + [B3 - 1, B3, B3 + 1, B4 - 1, B4 - B, 12345678, 2048576040]:
+            mon.check_n(n)
+        cnt = shard["hi"] + 7
+        rec.case(None, n=0, nontrivial=False)
+        rec.evals += cnt
+        for m in ("roundtrip", "wire-safe", "prefix", "differential"):
+            rec.count(m, cnt)
+        rec.sample({"polluted_history": [str(j) for j in junk[:6]], "then_checked": "all n < %d" % shard["hi"]})
 
 
 class ContractBroken(Exception):
